@@ -47,6 +47,16 @@ CLAIMS['C28'] = dict(
          'debug/internal severities, the checkers summary.',
     design='3/C28', note='LIST is over-approximated (a listing call that returns early at run time still counts), so misses are possible on that side; EMIT is exact for enumerable ids, non-enumerable ids are exit 2.')
 
+CLAIMS['C27'] = dict(
+    technique='static analysis: interprocedural guard dominance (path conditions over settings atoms, guarded severity/certainty values, parameter binding at call sites) decided by exhaustive propositional case split',
+    text='Decides, for 626 (site, severity|certainty) instances, that every reporting call that can carry warning/style/performance/'
+         'portability/information or certainty inconclusive is dominated by the corresponding enable test on every call chain from '
+         'the analysis entry points, and that site reachability is monotone in the options. A violation carries the falsifying option '
+         'set and call chain. 20 genuine ungated sites of the pinned tree (each replayed against the built binary) are known findings; '
+         '30 sites whose gating is established through data flow (settings-filtered value getters, containers filled under the '
+         'option, separate --enable flags) are listed as not decided by this rule, with the reason.',
+    design='3/C27', note='Assumes Settings::isPremiumEnabled() is false. Does not decide monotonicity of value-flow itself under --inconclusive, nor the undecided sites listed in rules/C27.py.')
+
 NOT_APPLICABLE = {
     'C01': 'soundness of inferred values vs. concrete executions of arbitrary programs; needs an executing/symbolic oracle, no structural necessary condition in valueflow.cpp',
     'C02': 'same as C01, for container sizes',
